@@ -92,7 +92,8 @@ def _check(c, orig, model, input_db, span, kwargs, result, case):
         c.inconc("smooth:option-not-decided")
         return
     # certificate shared with C03: non-singular, well-conditioned observation covariance, identified initial condition
-    if c03.prepare(c, model, input_db, span, kwargs, tag="smooth") is None:
+    # (the certificate does not depend on shock means, so announced/anticipated shock paths in the data are admitted here)
+    if c03.prepare(c, model, input_db, span, kwargs, tag="smooth", allow_ant=True) is None:
         return
     sm = out["smooth_med"]
     spec = case["spec"]
@@ -121,6 +122,25 @@ def _check(c, orig, model, input_db, span, kwargs, result, case):
     if any(v is None for v in S.values()) or any(v is None for v in U.values()):
         vio("smooth:output-name-missing", f"smooth_med lacks one of {tnames + ynames + unames + wnames}")
         return
+    # announced (anticipated) shock paths given with the data are handed back unchanged and enter the equations next to
+    # the unanticipated shock of the same name
+    n_ant = 0
+    if kwargs.get("shocks_from_data"):
+        for nm in unames:
+            if "ant_" + nm not in input_db:
+                continue
+            given = np.nan_to_num(np.asarray(input_db["ant_" + nm].get_data(span), dtype=float)[:, 0])
+            if not np.any(given != 0):
+                continue
+            n_ant += 1
+            back = _arr(sm, "ant_" + nm, span, False)
+            c.event("smooth", "anticipated-path-handed-back", key=("ant",) + base_key, nontrivial=True)
+            if back is None or np.max(np.abs(np.nan_to_num(back) - given)) > 1e-10:
+                vio("smooth:anticipated-shock-path-changed", f"ant_{nm}: the smoother output differs from the announced path given in the data")
+                return
+            U[nm] = U[nm] + given
+        if n_ant:
+            base_key = base_key + ("anticipated",)
     # ---- 1. observables reproduce the data
     for nm in ynames:
         obs = np.isfinite(Y[nm])
@@ -293,7 +313,7 @@ def shard(c):
         if c.out_of_time():
             break
         try:
-            case = c03.make_case(rng)
+            case = c03.make_case(rng, ant=True)
         except Exception as exc:
             c.inconc(f"generator:error:{type(exc).__name__}")
             continue
